@@ -57,6 +57,71 @@ CHECKS.update({
                 note=TB + "Sampled inputs; expm of diagonal matrices is compared against mp.exp at higher precision (an assumption stated in the evidence)."),
 })
 
+CHECKS.update({
+    "C04": dict(category="proof", technique="Lean 4 theorems: componentwise correct rounding of complex add/sub/mul/mul_mpf/mul_int/neg/pos/square(re) on the proved real core + bit-exact correspondence of libmpc with the Lean model + exact rational decisions",
+                text="Theorems (components of any length, all precisions, five modes): each part of z+w, z-w, z*w (four exact products, one rounding), z*x, z*n, -z, +z is THE correctly rounded exact component. "
+                     "mpc_div/reciprocal/pow_int/abs/floor... are modelled bit-exactly and their accuracy clauses are decided per case in exact arithmetic. z+x (x real) is proved to leave the imaginary part unrounded (known finding F3).",
+                note=TB + "Division and negative powers: relative-error clause sampled with an exact oracle, not proved. The last fallback of mpc_pow_int (exp/log) is outside the model."),
+    "C07": dict(category="proof", technique="Lean 4 model of str_to_man_exp/from_str/mpi_from_str + theorems (parse_value for the float() grammar, exact-branch correct rounding, interval forms contain the denoted range) + bit-exact correspondence + exact decimal decisions",
+                text="Theorems: for every literal of the float() grammar man*10^exp equals the decimal value (incl. underscores and '.0' forms after the repairs); in the exact branch (|decimal exponent| <= 400) from_str returns THE correctly rounded value in all modes "
+                     "(unconditional, on the proved from_int/from_rational); each of the five interval string forms contains the denoted number/range given directed endpoint conversions. The approximate branch is proved NOT correctly rounded on concrete witnesses (known finding D4). "
+                     "Parser and all branches are tied bit-exactly to the code; results are decided against the exact decimal value.",
+                note=TB + "ASCII literals only; CPython's int(str) digit limit is a parameter. The approximate branch (D4) is modelled, not correct."),
+    "C08": dict(category="proof", technique="Lean 4 model of to_digits_exp/to_str/repr_dps (binary64-modelled float steps) + theorems (digit rounding, format/parse consistency, reprDpsOK for all p <= 20000) + bit-exact string correspondence + API laws decided exactly",
+                text="Theorems: the carry-through-9s digit surgery equals arithmetic half-up rounding; every printed string is accepted by the parser and denotes sign*roundedDigits*10^exponent; specials print as +inf/-inf/nan; 10^(repr_dps p - 1) > 2^p for every 1 <= p <= 20000 (false at p = 54 before the repair). "
+                     "Strings produced by the real code are compared character for character with the model; eval(repr(x)) == x, float()/Decimal() parsing and nearest-decimal are decided exactly on generated values. Nearest-decimal is proved false for long mantissas (known finding D5).",
+                note=TB + "Float expressions (bitprec, fixdps, prec_to_dps) are modelled with an explicit binary64 model validated exhaustively against CPython in the thorough tier. digits_floor/repr_roundtrip for all x are not proved (sampled)."),
+    "C09": dict(category="proof", technique="Lean 4 model of from_float/to_float on binary64 bit patterns + theorems + bit-pattern correspondence",
+                text="Theorems: from_float is exact for every finite bit pattern incl. subnormals; to_float(from_float d) = d bitwise; to_float of a canonical value with |x| >= 2^-1022 is the nearest-even binary64 (or +-inf / OverflowError when it rounds to 2^1024), using the proved normalize1. "
+                     "Bit patterns (struct) of float(x)/complex(z) and tuples of mpf(f) are compared with the model on structured inputs (all exponent fields, subnormals, 54-bit ties, values within 2 ulp of the thresholds).",
+                note=TB + "math.frexp/math.ldexp semantics are assumed as documented (validated against CPython by the harness incl. the subnormal range)."),
+    "C11": dict(category="proof", technique="AST->Lean precision-skeleton translator regenerated from /repo on every run + bracketed_sound theorem + kernel-decided generated obligations + dynamic fault-injection confirmation",
+                text="Every function of /repo/mpmath that writes prec/dps is translated (on each run, from the current tree) into a small IR; Lean proves once that a syntactically bracketed skeleton restores (prec, dps) on every exit for every fault schedule (bracketed_sound), and decides bracketedness of each generated skeleton (172 obligations). "
+                     "Interprocedural summaries give the leaky public entry points; regressions against the committed baseline are broken obligations and are attacked dynamically (normal return, raising callbacks, injected libmp faults at the k-th primitive, five starting precisions); leaks are reported with the minimal schedule. "
+                     "The conversion formulas prec<->dps are modelled on binary64 and compared with CPython.",
+                note=TB + "The translator and its name-based call resolution are trusted (over-approximating); the fixed-point argument for summaries is informal. Dynamic confirmation samples entry points in the quick tier (all 206 specs in the thorough tier)."),
+    "C12": dict(category="translation_validation", technique="Lean-verified interval evaluator (exp, log, sqrt, atan, sin, cos, pi + 20 derived functions, soundness proved from Mathlib series bounds) used as a rigorous oracle on sampled arguments",
+                text="Theorems: enclosure soundness for each primitive and derived function and accCheck_sound (ok => |y - f(x)| <= 2^(k-p)|f(x)|; violates => the negation). "
+                     "The real elementary functions (real arguments, 29 functions, all five modes, precisions 10..1000, adversarial arguments near k*pi/2, near 1, at thresholds, huge/tiny) are decided against the property's 2^(4-p) bound by the verified checker; no floating-point oracle.",
+                note=TB + "The quantifier 'all arguments and precisions' is sampled. Complex arguments, atan2, arg, expj and the reciprocal families have no verified reference and are counted as undecided, never as pass."),
+    "C13": dict(category="translation_validation", technique="Lean theorems (point enclosure => exact value; integer root-exactness test; sinpi/cospi table) + verified evaluator as oracle on sampled exact cases",
+                text="Exactness of exp(0), log(1), sqrt/cbrt/root of perfect powers, sinpi/cospi at half-integers, powm1 = 0 iff x^y = 1, finiteness of tan/cot/sec/csc near k*pi/2 and the inf/nan limit table are decided with the verified evaluator and exact integer tests whose soundness is proved in Lean.",
+                note=TB + "Sampled exact cases; sqrt exactness of the core is additionally covered by C02's correspondence."),
+    "C14": dict(category="proof", technique="Lean 4 containment theorems for interval add/sub/neg/pos/mul (all sign cases) on the proved directed-rounding core + bit-exact correspondence of libmpi with the Lean model + exact sample-point decisions",
+                text="Theorems (finite endpoints of any length, every precision): x in s, y in t => x+y, x-y, -x, x, x*y lie in the result interval, which is again well-formed; multiplication covers the degenerate, the six sign cases and the four-product general case. "
+                     "mpi_div/sqrt/pow_int/abs/square/conversions and infinite endpoints are modelled bit-exactly and containment is decided on sample points per case.",
+                note=TB + "Partial: infinite endpoints, division, powers, sqrt, string conversion are decided per case, not proved; transcendental interval functions are not covered."),
+    "C15": dict(category="translation_validation", technique="bit-exact Lean model of mpci_* on top of the real interval operations proved in Props/C14 + exact sample-point decisions of containment",
+                text="mpci_add/sub/mul/div/neg/pos/abs/square/pow_int are modelled following the code and compared bit for bit; for points of the input rectangles the exact complex result is checked to lie in the output rectangle in exact rational arithmetic.",
+                note=TB + "No separate theorem for the complex operations yet (they are compositions of the proved real interval operations); mpci_exp/log/cos/sin/pow/gamma are not covered."),
+    "C16": dict(category="proof", technique="Lean 4 theorems: interval comparisons are sound and complete three-valued predicates (on the proved mpf_cmp) + bit-exact correspondence incl. ctx_iv operators",
+                text="Theorems (finite endpoints): mpi_lt/le answer True iff the relation holds for every pair of members, False iff it fails for every pair (hence None exactly otherwise); gt/ge are the mirrored predicates; == compares endpoint values exactly; interval-in-interval containment. "
+                     "Operators of ivmpf/ivmpc incl. number operands and infinite endpoints are modelled and compared bit for bit and decided on sample points.",
+                note=TB + "Infinite endpoints and number operands are decided per case; comparisons with plain numbers are known to round the number first (known finding F4)."),
+    "C17": dict(category="proof", technique="Lean state machine of constant_memo/def_mpf_constant with refinement, history-independence and directed-rounding theorems + state-by-state correspondence + exhaustive bounded history decision + verified enclosures of pi, e, ln2, ln10, phi, degree",
+                text="Theorems: for every request history the memo holds F(memo_prec); if F is an exact floor every history returns the same value; floor-mode <= c <= ceiling-mode whenever c*2^wp - 1 < v <= c*2^wp. "
+                     "The real caches are driven through random histories with fault injection and compared state by state; history independence of the final mpf is decided over all reachable memo precisions of a bounded history space in all modes; the six correctly-rounded constants are compared with rigorous enclosures from the verified evaluator.",
+                note=TB + "euler, catalan, apery, khinchin, glaisher, twinprime, mertens have no verified reference: only cache logic, directed consistency and cross-precision refinement are checked for them."),
+    "C25": dict(category="proof", technique="Lean 4 models of libintmath (with memo caches as state) + theorems against Mathlib definitions for every call history + bit-exact correspondence over call histories + independent exact definitions",
+                text="Theorems (all arguments, all reachable cache states): ifac = n!, ifac2 = n!!, ifib = Fibonacci incl. negative indices, gcd, stirling1/2 (= Nat.stirlingFirst/Second, exact division), list_primes, primepi, moebius, isprime complete for all primes and sound below 10^5 (unconditional) / below 3.4e14 under the named SPRP bounds, eulernum for m <= 101, isqrt/sqrtrem correction loops. "
+                     "Real functions are run over call histories crossing the cache limits and compared with the model incl. cache contents; wrappers are decided against independent exact definitions.",
+                note=TB + "binomial/rf/ff/bell/bernoulli have no integer code path: they are decided against reference values only. SPRP_bounds is a named, unproved number-theoretic hypothesis."),
+    "C33": dict(category="proof", technique="Lean cache state machines (constant memo, log_int, bernoulli, exact-key tables, quadrature nodes, matrix _LU, memoize) with refinement + abort-safety theorems + state-by-state correspondence with fault injection and fresh-process probes",
+                text="Theorems: for every request history and every abort point each cache answers with F(probe) (exact-key) or a down-shift of F at a precision >= the requested one; an aborted request leaves the invariant intact; bernoulli is always rounded (after the repair of D14). "
+                     "The real caches are driven through random histories (precision changes, mutations, injected exceptions), their state is read from module globals and compared with the model after every step, and the probe is compared with a fresh process.",
+                note=TB + "Crash points are the calls that can raise (not asynchronous interrupts between two assignments: proved unsafe, outside the property). The _LU cache is proved NOT precision/resize-safe (known findings LU1, LU2)."),
+    "C39": dict(category="proof", technique="Lean 4 models of mag/nint_distance/isint/isnpint/classification/ldexp/frexp + theorems + bit-exact correspondence through the public API",
+                text="Theorems: mag bounds per operand kind with the exact slack, ldexp exact, frexp normalisation, isint/isnpint iff the value is a (non-positive) integer, classification tables, nint_distance = nearest integer with distance exponent bounds per branch, errors exactly for non-finite parts (after the repair). "
+                     "The public mp functions are compared with the model on mpf/mpc/int/float/mpq operands and decided exactly against the definitions.",
+                note=TB + "Tie direction of nint_distance differs between mpf and mpq operands (both are nearest integers; recorded, not a violation)."),
+    "C40": dict(category="proof", technique="Lean 4 theorems (hex pickling round trip for mantissas of any length, state round trips, matrix copy independence) + correspondence with real pickle/copy",
+                text="Theorems: from_pickable(to_pickable x) = x for every raw tuple; __setstate__(__getstate__()) restores mpf/mpc; matrix copy is independent of the original. Real pickle (all protocols), copy.copy/deepcopy of mpf/mpc/matrix are exercised and compared (type identity, tuple equality).",
+                note=TB + "pickle's reduce machinery is outside the model: matrix pickling and values of cloned contexts fail in the real code (known findings H2-H4)."),
+    "C43": dict(category="translation_validation", technique="exact rational decision of the property's fp-vs-mp clause + Lean-verified evaluator for the true-value comparison + dispatch/type table",
+                text="fp results are doubles, read exactly; the clause |fp - mp53| <= max(2^-48|mp53|, 2^-300), result types and the real/complex branch choice are decided exactly on sampled arguments; agreement with the true function value is additionally reported through the verified evaluator.",
+                note=TB + "libm is outside the model. Long-tail property with many recorded findings (fp lacks some functions, conjugate branches outside real domains, libm accuracy at huge arguments)."),
+})
+
 NOT_YET = "not yet built in this round (see DESIGN.md section 6 staging); no check is claimed"
 NOT_APPLICABLE = {
     "C20": "erf/Ei/Si/Ci/Fresnel/incomplete gamma and beta are not defined in Mathlib with computable bounds; no theorem can relate an output to the function, and an unverified reference would be testing under another name (DESIGN.md section 7)",
